@@ -229,6 +229,7 @@ func c13Run(u *vfUnit) {
 				f.Seek(int64(O), io.SeekStart)
 				nn, e := f.Write(data)
 				n, cerr = int64(nn), e
+				offAfter, _ = f.Seek(0, io.SeekCurrent)
 			case "ReadFrom-sized", "ReadFrom-opaque", "ReadFromWithConcurrency":
 				f.Seek(int64(O), io.SeekStart)
 				cnt := &c13Counting{r: bytes.NewReader(data)}
@@ -252,6 +253,7 @@ func c13Run(u *vfUnit) {
 				buf := bytes.Repeat([]byte{0xEE}, L)
 				nn, e := f.Read(buf)
 				n, cerr, got = int64(nn), e, buf
+				offAfter, _ = f.Seek(0, io.SeekCurrent)
 			case "WriteTo":
 				f.Seek(int64(O), io.SeekStart)
 				var b bytes.Buffer
@@ -286,6 +288,15 @@ func c13Run(u *vfUnit) {
 			u.Sample(map[string]any{"case": label, "returned": fmt.Sprintf("(%d, %v)", n, cerr)})
 		}
 		content, _ := store.Get(path)
+		// Write and Read: the count and the File offset tell the same story also when a later chunk failed (the offset
+		// advances by the bytes the call reports, C12's clause, observed here because this is where chunks fail): the next
+		// sequential call must continue behind the prefix the count names, not on top of it
+		if (api == "Write" || api == "Read") && offAfter >= 0 && n >= 0 && offAfter != int64(O)+n {
+			viol("offset-disagrees-with-count:"+api, fmt.Sprintf("the call started at offset %d and returned (%d, %v), the File offset afterwards is %d", O, n, cerr, offAfter))
+		}
+		if api == "Write" || api == "Read" {
+			u.Count("offsets_compared_with_counts", 1)
+		}
 		// expected error
 		reqEnd := int64(O + L) // end of the requested range
 		if api == "WriteTo" {
